@@ -73,6 +73,10 @@ Judge(e, r) ==
          [] e.ev = "dropall" -> IF e.loaded # <<>> THEN {"DropReleases"} ELSE {}
          [] OTHER -> {}
 
+\* re-synchronise on what the live instances were SEEN to hold after the call (identity when the call conformed)
+Resync(s2, held, before) ==
+  [s2 EXCEPT !.seen = [k \in DOMAIN @ |-> IF k \notin held THEN Unread
+                                          ELSE IF @[k].st # "unread" THEN @[k] ELSE before[k]]]
 Step(e, r) ==
   IF e.ev = "init" THEN /\ s' = Fresh(TreeOf(e.tree), AsSet(e.objs))
                         /\ og' = [o \in AsSet(e.objs) |-> NoVals]
@@ -81,7 +85,7 @@ Step(e, r) ==
                               /\ og' = [og EXCEPT ![e.o] = NoVals]
          [] e.ev = "edit"  -> /\ s' = DoEdit(s, e.node, e.file, ContentOf(e.c))
                               /\ UNCHANGED og
-         [] e.ev = "get"   -> /\ s' = r.s
+         [] e.ev = "get"   -> /\ s' = Resync(r.s, LoadedSet(e), ViewOf(s))
                               /\ og' = IF e.raised \/ e.attr \in DOMAIN og[e.o] THEN og
                                        ELSE [og EXCEPT ![e.o] = [x \in DOMAIN @ \cup {e.attr} |-> IF x = e.attr THEN e.val ELSE @[x]]]
          [] e.ev = "dropall" -> /\ s' = DoDropAll(s)
